@@ -143,6 +143,10 @@ func checkMapOrder(c *Ctx, rule string, fs []*ssa.Function) int {
 					if _, ok := r.(*ssa.DebugRef); ok {
 						continue
 					}
+					// order-neutral uses: truncating to length 0 for reuse (also through the phi of an outer loop), len/cap
+					if orderNeutralUse(r, 0) {
+						continue
+					}
 					if ci, ok := r.(ssa.CallInstruction); ok && sortFuncs[calleeName(ci)] && unwrap(ci.Common().Args[0]) == ssa.Value(ph) {
 						sorts = append(sorts, r)
 						if why := tieBreakingLost(ci); why != "" {
@@ -266,4 +270,32 @@ func tieBreakingLost(ci ssa.CallInstruction) string {
 		}
 	}
 	return ""
+}
+
+// orderNeutralUse: a use of a slice that cannot reveal the order of its elements.
+func orderNeutralUse(r ssa.Instruction, depth int) bool {
+	switch x := r.(type) {
+	case *ssa.DebugRef:
+		return true
+	case *ssa.Slice:
+		if x.High != nil {
+			if k, ok := x.High.(*ssa.Const); ok && k.Value != nil && k.Value.ExactString() == "0" {
+				return true
+			}
+		}
+	case ssa.CallInstruction:
+		n := calleeName(x)
+		return n == "builtin:len" || n == "builtin:cap"
+	case *ssa.Phi:
+		if depth > 3 || x.Referrers() == nil {
+			return false
+		}
+		for _, rr := range *x.Referrers() {
+			if !orderNeutralUse(rr, depth+1) {
+				return false
+			}
+		}
+		return true
+	}
+	return false
 }
